@@ -17,6 +17,10 @@ import (
 )
 
 type c19Site struct {
+	Pkg    string `json:"-"`
+	Bare   string `json:"-"`
+	Recv0  string `json:"-"`
+	Guard  string `json:"-"`
 	Func   string `json:"func"`
 	Method string `json:"method"`
 	Recv   string `json:"receiver"`
@@ -24,6 +28,9 @@ type c19Site struct {
 	Class  string `json:"class"`
 }
 type c19Read struct {
+	Pkg   string `json:"pkg"`
+	Bare  string `json:"bare"`
+	Reach bool   `json:"reaches_driver_call"`
 	Func  string `json:"func"`
 	Line  int    `json:"line"`
 	Class string `json:"class"`
@@ -31,12 +38,33 @@ type c19Read struct {
 type c19Facts struct {
 	Sites []c19Site `json:"sites"`
 	Reads []c19Read `json:"dryrun_reads"`
+	funcs map[string]*c19Func // key "pkgdir|bare name" -> all functions/methods of that name
+}
+
+// c19Call is a call of a function / method of the same package, with the DryRun guard at the call.
+type c19Call struct {
+	callee string
+	guard  string
+}
+type c19Func struct {
+	pkg, name string // package dir, bare name (method name without receiver)
+	exported  bool
+	sites     []int // indices into Facts.Sites
+	calls     []c19Call
+	escapes   bool // referenced other than in call position (method value, registered callback ...)
+	callers   int
 }
 
 type c19x struct {
 	fset  *token.FileSet
 	file  string
 	fn    string
+	pkg   string
+	bare  string
+	recv  string
+	cur   *c19Func
+	refs  []string // identifiers seen outside call position
+	inCall map[ast.Node]bool
 	facts *c19Facts
 	// positions of .DryRun selectors already classified (if conditions, assignments)
 	seen map[token.Pos]bool
@@ -123,7 +151,7 @@ func (x *c19x) read(pos token.Pos, class string) {
 		return
 	}
 	x.seen[pos] = true
-	x.facts.Reads = append(x.facts.Reads, c19Read{Func: x.file + ":" + x.fn, Line: x.fset.Position(pos).Line, Class: class})
+	x.facts.Reads = append(x.facts.Reads, c19Read{Pkg: x.pkg, Bare: x.bare, Func: x.file + ":" + x.fn, Line: x.fset.Position(pos).Line, Class: class})
 }
 
 // mark every .DryRun inside e with class
@@ -152,18 +180,30 @@ func (x *c19x) exprs(n ast.Node, guard string, vars map[string]bool) {
 			x.block(v.Body.List, guard, vars)
 			return false
 		case *ast.CallExpr:
+			x.inCall[v.Fun] = true
 			if s, ok := v.Fun.(*ast.SelectorExpr); ok && c19Methods[s.Sel.Name] {
-				class := map[string]string{"if": "SIfNotDry", "ret": "SAfterDryReturn", "retvar": "SAfterVarReturn", "": "SUnknown"}[guard]
-				if x.file == "prepare_stmt.go" {
-					class = "SWrapper"
-				}
-				x.facts.Sites = append(x.facts.Sites, c19Site{Func: x.file + ":" + x.fn, Method: s.Sel.Name,
-					Recv: c19Text(s.X), Line: x.fset.Position(v.Pos()).Line, Class: class})
+				x.facts.Sites = append(x.facts.Sites, c19Site{Pkg: x.pkg, Bare: x.bare, Recv0: x.recv, Guard: guard,
+					Func: x.file + ":" + x.fn, Method: s.Sel.Name,
+					Recv: c19Text(s.X), Line: x.fset.Position(v.Pos()).Line})
+				x.cur.sites = append(x.cur.sites, len(x.facts.Sites)-1)
+			} else if s, ok := v.Fun.(*ast.SelectorExpr); ok {
+				x.inCall[s.Sel] = true
+				x.cur.calls = append(x.cur.calls, c19Call{callee: s.Sel.Name, guard: guard})
+			} else if id, ok := v.Fun.(*ast.Ident); ok {
+				x.cur.calls = append(x.cur.calls, c19Call{callee: id.Name, guard: guard})
+			}
+		case *ast.Ident:
+			if !x.inCall[v] {
+				x.refs = append(x.refs, v.Name)
 			}
 		case *ast.SelectorExpr:
 			if v.Sel.Name == "DryRun" {
 				x.read(v.Sel.Pos(), "ROther")
 			}
+			if !x.inCall[v] && !x.inCall[v.Sel] {
+				x.refs = append(x.refs, v.Sel.Name)
+			}
+			x.inCall[v.Sel] = true // the Sel identifier itself is not a free reference
 		}
 		return true
 	})
@@ -254,6 +294,8 @@ func c19FuncName(d *ast.FuncDecl) string {
 func c19Extract(repo string) (*c19Facts, error) {
 	facts := &c19Facts{}
 	fset := token.NewFileSet()
+	var all []*c19Func
+	refs := map[string][]string{}
 	for _, dir := range []string{"", "callbacks"} {
 		files, _ := filepath.Glob(filepath.Join(repo, dir, "*.go"))
 		sort.Strings(files)
@@ -281,8 +323,111 @@ func c19Extract(repo string) (*c19Facts, error) {
 				if !ok || fd.Body == nil {
 					continue
 				}
-				x := &c19x{fset: fset, file: rel, fn: c19FuncName(fd), facts: facts, seen: map[token.Pos]bool{}}
+				recv := ""
+				if fd.Recv != nil && len(fd.Recv.List) > 0 {
+					t := fd.Recv.List[0].Type
+					if st, ok := t.(*ast.StarExpr); ok {
+						t = st.X
+					}
+					recv = c19Text(t)
+				}
+				fi := &c19Func{pkg: dir, name: fd.Name.Name, exported: ast.IsExported(fd.Name.Name)}
+				all = append(all, fi)
+				x := &c19x{fset: fset, file: rel, fn: c19FuncName(fd), pkg: dir, bare: fd.Name.Name, recv: recv, cur: fi,
+					facts: facts, seen: map[token.Pos]bool{}, inCall: map[ast.Node]bool{}}
 				x.block(fd.Body.List, "", map[string]bool{})
+				refs[dir] = append(refs[dir], x.refs...)
+			}
+		}
+	}
+	// ---- interprocedural part (per package, by bare name; no type information: a name stands for every
+	// function / method of that name in the package) ----
+	byName := map[string][]*c19Func{}
+	for _, f := range all {
+		byName[f.pkg+"|"+f.name] = append(byName[f.pkg+"|"+f.name], f)
+	}
+	for dir, rs := range refs {
+		for _, r := range rs {
+			for _, f := range byName[dir+"|"+r] {
+				f.escapes = true
+			}
+		}
+	}
+	type edge struct {
+		from  *c19Func
+		guard string
+	}
+	callersOf := map[*c19Func][]edge{}
+	for _, f := range all {
+		for _, c := range f.calls {
+			for _, g := range byName[f.pkg+"|"+c.callee] {
+				callersOf[g] = append(callersOf[g], edge{f, c.guard})
+			}
+		}
+	}
+	// covered(f): f is only ever entered through calls that are themselves behind a DryRun test
+	covered := map[*c19Func]bool{}
+	for changed := true; changed; {
+		changed = false
+		for _, f := range all {
+			if covered[f] || f.exported || f.escapes || len(callersOf[f]) == 0 {
+				continue
+			}
+			ok := true
+			for _, e := range callersOf[f] {
+				if e.guard == "" && !covered[e.from] {
+					ok = false
+				}
+			}
+			if ok {
+				covered[f] = true
+				changed = true
+			}
+		}
+	}
+	// reaches(f): a driver call site is reachable from f
+	reaches := map[*c19Func]bool{}
+	for _, f := range all {
+		if len(f.sites) > 0 {
+			reaches[f] = true
+		}
+	}
+	for changed := true; changed; {
+		changed = false
+		for _, f := range all {
+			if reaches[f] {
+				continue
+			}
+			for _, c := range f.calls {
+				for _, g := range byName[f.pkg+"|"+c.callee] {
+					if reaches[g] {
+						reaches[f] = true
+						changed = true
+					}
+				}
+			}
+		}
+	}
+	for _, f := range all {
+		for _, i := range f.sites {
+			st := &facts.Sites[i]
+			switch {
+			case c19Methods[st.Bare] || strings.HasPrefix(st.Recv0, "PreparedStmt"):
+				st.Class = "SWrapper" // a ConnPool implementation forwarding the call it received
+			case st.Guard != "":
+				st.Class = map[string]string{"if": "SIfNotDry", "ret": "SAfterDryReturn", "retvar": "SAfterVarReturn"}[st.Guard]
+			case covered[f]:
+				st.Class = "SCallerGuard"
+			default:
+				st.Class = "SUnknown"
+			}
+		}
+	}
+	for i := range facts.Reads {
+		r := &facts.Reads[i]
+		for _, f := range byName[r.Pkg+"|"+r.Bare] {
+			if reaches[f] {
+				r.Reach = true
 			}
 		}
 	}
@@ -298,19 +443,29 @@ func init() {
 		q := func(s string) string { return "\"" + strings.ReplaceAll(s, "\"", "\"\"") + "\"%string" }
 		fmt.Fprintf(w, "From Verif Require Import Base C19_Facts.\n")
 		fmt.Fprintf(w, "Definition c19_sites : list (string * string * site_class) := [")
+		pkgName := func(p string) string {
+			if p == "" {
+				return "gorm"
+			}
+			return p
+		}
 		for i, s := range fa.Sites {
 			if i > 0 {
 				fmt.Fprintf(w, ";")
 			}
-			fmt.Fprintf(w, "\n  (%s, %s, %s)", q(s.Func), q(s.Recv+"."+s.Method), s.Class)
+			fmt.Fprintf(w, "\n  (%s, %s, %s)", q(pkgName(s.Pkg)+":"+s.Func), q(s.Recv+"."+s.Method), s.Class)
 		}
 		fmt.Fprintf(w, "].\n")
-		fmt.Fprintf(w, "Definition c19_dry_reads : list (string * read_class) := [")
+		fmt.Fprintf(w, "Definition c19_dry_reads : list (string * string * read_class * bool) := [")
 		for i, r := range fa.Reads {
 			if i > 0 {
 				fmt.Fprintf(w, ";")
 			}
-			fmt.Fprintf(w, "\n  (%s, %s)", q(r.Func), r.Class)
+			reach := "false"
+			if r.Reach {
+				reach = "true"
+			}
+			fmt.Fprintf(w, "\n  (%s, %s, %s, %s)", q(pkgName(r.Pkg)), q(r.Bare), r.Class, reach)
 		}
 		fmt.Fprintf(w, "].\n")
 		return fa, nil
